@@ -339,7 +339,13 @@ func streamEnvAPI(o *Out, r *rand.Rand, n int, thorough bool) {
 				case 16:
 					if r.Intn(2) == 0 {
 						op = fmt.Sprintf("(copy %d)", i)
-						res = fmt.Sprintf("#%d", w.add(e.Copy()))
+						cid := w.add(e.Copy())
+						res = fmt.Sprintf("#%d", cid)
+						sn2 := w.snapshot()
+						if fmt.Sprint(sn2.vals[i]) != fmt.Sprint(sn2.vals[cid]) || fmt.Sprint(sn2.types[i]) != fmt.Sprint(sn2.types[cid]) || sn2.ext[i] != sn2.ext[cid] || sn2.parent[i] != sn2.parent[cid] {
+							o.Fail(Failure{Oracle: "copy-is-a-snapshot", Key: "env-copy-differs", Input: strings.Join(append(hist, op), " "),
+								Detail: fmt.Sprintf("scope #%d and its copy #%d differ: values %v / %v, types %v / %v, external lookup %v / %v, parent %d / %d", i, cid, sn2.vals[i], sn2.vals[cid], sn2.types[i], sn2.types[cid], sn2.ext[i], sn2.ext[cid], sn2.parent[i], sn2.parent[cid])})
+						}
 					} else {
 						op = fmt.Sprintf("(deepcopy %d)", i)
 						c := e.DeepCopy()
@@ -347,6 +353,20 @@ func streamEnvAPI(o *Out, r *rand.Rand, n int, thorough bool) {
 						// register the copied parent chain in creation order
 						for p := parentOf(c); p != nil; p = parentOf(p) {
 							w.add(p)
+						}
+						// the copy is an equal chain: level by level the same bindings, types and external lookup
+						sn2 := w.snapshot()
+						a, b := i, w.ids[c]
+						for a >= 0 && b >= 0 {
+							if fmt.Sprint(sn2.vals[a]) != fmt.Sprint(sn2.vals[b]) || fmt.Sprint(sn2.types[a]) != fmt.Sprint(sn2.types[b]) || sn2.ext[a] != sn2.ext[b] {
+								o.Fail(Failure{Oracle: "copy-is-a-snapshot", Key: "env-deepcopy-differs", Input: strings.Join(append(hist, op), " "),
+									Detail: fmt.Sprintf("scope #%d of the chain and its copy #%d differ: values %v / %v, types %v / %v, external lookup %v / %v", a, b, sn2.vals[a], sn2.vals[b], sn2.types[a], sn2.types[b], sn2.ext[a], sn2.ext[b])})
+								break
+							}
+							a, b = sn2.parent[a], sn2.parent[b]
+						}
+						if (a >= 0) != (b >= 0) {
+							o.Fail(Failure{Oracle: "copy-is-a-snapshot", Key: "env-deepcopy-chain-length", Input: strings.Join(append(hist, op), " "), Detail: "the copied chain has another length than the original"})
 						}
 					}
 				case 17:
